@@ -1354,6 +1354,25 @@ impl Instance {
         Ok(())
     }
 
+    /// C20 "nothing live is ever deleted", checked where the damage is done rather than where it shows: a table or blob
+    /// file named by the CURRENT version must not carry the deletion mark (its file would go with the last handle,
+    /// i.e. at the latest when the tree is closed, while the durable version still names it).
+    pub fn live_files_not_marked(&mut self) -> Result<(), Violation> {
+        let v = self.tree().current_version();
+        bump(&mut self.counters, "deletion_mark_audits", 1);
+        for t in v.iter_tables() {
+            if verif::table_marked_deleted(t) {
+                return Err(Violation::new(&["C20"], "live-table-marked-deleted", format!("table {} is named by the current version v{} but is marked for deletion ({})", t.id(), v.id(), self.ctx_name)));
+            }
+        }
+        for bf in v.blob_files.iter() {
+            if verif::blob_file_marked_deleted(bf) {
+                return Err(Violation::new(&["C20"], "live-blob-file-marked-deleted", format!("blob file {} is named by the current version v{} but is marked for deletion ({})", bf.id(), v.id(), self.ctx_name)));
+            }
+        }
+        Ok(())
+    }
+
     fn post_write(&mut self, touched: &[Key]) -> Result<(), Violation> {
         let r = self.counter_invariant();
         self.soft(r)?;
@@ -1370,6 +1389,8 @@ impl Instance {
         let r = self.snapshot_version_invariant();
         self.soft(r)?;
         let r = self.dir_audit();
+        self.soft(r)?;
+        let r = self.live_files_not_marked();
         self.soft(r)?;
         let r = self.seqno_marks();
         self.soft(r)?;
